@@ -115,11 +115,20 @@ class PredictWorld:
             out = call(getattr(self.m, op), self.teams(**kw))
         return out
 
-    def spec(self, which):
+    def spec(self, which, beta=None):
         with active(self.ctx):
             X = SymPX()
             f = {"win": PS.win, "draw": PS.draw, "rank": PS.rank_probabilities}[which]
-            return f(self.prior, self.beta, X)
+            return f(self.prior, self.beta if beta is None else beta, X)
+
+    def run_second_instance(self, op, **kw):
+        """another instance of the same model class with its own beta, called after this
+        world's instance has already predicted: (outcome, its beta)"""
+        with active(self.ctx):
+            m2, p2 = game.mk_model(self.ctx, self.S, tag="n")
+            call(getattr(self.m, op), self.teams(**kw))
+            out = call(getattr(m2, op), self.teams(**kw))
+        return out, p2["beta"]
 
     def prover(self, timeout_ms=10000, extra_hyps=()):
         return field.Prover(list(self.ctx.hyps()) + list(extra_hyps), list(self.ctx.facts.values()), timeout_ms=timeout_ms)
